@@ -132,6 +132,14 @@ def poisoned(rf, pos, poison, rnd):
     else:
         rf2.variables = list(rf2.variables)
         rf2.variables.insert(rnd.randint(0, len(rf2.variables)), ('zzbadvar', poison))     # before, between or after the file's own variables
+        if rnd.random() < .5:
+            # a rule that READS the unevaluable variable - under negation, inequality, a None test or a conditional - is itself unevaluable:
+            # the same rule in the comparison file (where the variable simply does not exist) is skipped, so both files must agree
+            reader = R.Rule('UsesBad', rnd.choice(['not zzbadvar', 'zzbadvar != "REFUND"', 'zzbadvar == None', '(1 if zzbadvar else 2) == 2', 'not (zzbadvar and false)',
+                                                   'contains("") and not zzbadvar']), 'UsesBadCat', 'x', tags=['usesbad'])
+            k = rnd.randint(0, len(rf2.rules))
+            rf2.rules = rf2.rules[:k] + [reader] + rf2.rules[k:]
+            base = rf.with_rules(rf.rules[:k] + [reader] + rf.rules[k:])
     return rf2, base, None, pos, None
 
 
@@ -433,7 +441,7 @@ def run(rec, shard, nshards, t):
             poison = rnd.choice(POISONS[cls])
             pos = POSITIONS[(i // len(classes) + shard) % len(POSITIONS)]
             rows = dict(world.ROWS, empty=[])
-            judge(rec, rf, cls, poison, pos, world.pool(rnd, 10), rows, tmp, rnd)
+            judge(rec, rf, cls, poison, pos, world.pool(rnd, 10, with_fields=rnd.random() < .6), rows, tmp, rnd)
             if i % 6 == 0:
                 judge_parse(rec, rf, cls, poison, pos, rows, tmp, rnd)
             if i % 4 == 0:
